@@ -56,6 +56,7 @@ struct InstII {
     }
     void one(S x, bool boundary) {
         ++swept;
+        AUV_INFLIGHT("rep-changing conversion/checkers S=%s T=%s N=%s D=%s x=%s", rep_name<S>(), rep_name<T>(), dec((i128)(u128)N).c_str(), dec((i128)(u128)D).c_str(), dec((i128)x).c_str());
         auto q = make_quantity<ScaledMetersC<N, D>>(x);
         bool ov = will_conversion_overflow<T>(q, meters);
         bool tr = will_conversion_truncate<T>(q, meters);
@@ -155,6 +156,7 @@ struct InstF {
     void one(S x, bool special) {
         ++swept; ++logged;
         if (special) ++nontrivial;
+        AUV_INFLIGHT("rep-changing conversion/checkers S=%s T=%s N=%s D=%s (floating path)", rep_name<S>(), rep_name<T>(), dec((i128)(u128)N).c_str(), dec((i128)(u128)D).c_str());
         auto q = make_quantity<ScaledMetersC<N, D>>(x);
         bool ov = will_conversion_overflow<T>(q, meters);
         bool tr = will_conversion_truncate<T>(q, meters);
